@@ -185,7 +185,9 @@ def r19_1(ctx) -> None:
                   witness=f"evaluated trace(s): {sorted(map(str, got))[:2]}" + (f"; raises {bad[0].raised}" if bad else ""))
 
 
-def r19_2(ctx) -> None:
+def r19_2(ctx, project=None) -> None:
+    """``project``: compare only this aspect of the traces (a property that shares the table never
+    demands more than it states): 'awaits' = what is awaited and what is iterated, in order."""
     u = ctx.unit("asynctools.any_iter")
     p = u.param_names()[0]
     table = {}
@@ -205,6 +207,10 @@ def r19_2(ctx) -> None:
                     + (("end", how, resolved),)
                 got = {oc.env.get("@trace", ()) for oc in outs if oc.terminal.kind == "exit"}
                 bad = [oc for oc in outs if oc.terminal.kind != "exit"]
+                if project == "awaits":
+                    def proj(tr):
+                        return tuple((e[0],) + tuple(e[1:3]) for e in tr if e[0] in ("await", "next"))
+                    want, got = proj(want), {proj(t) for t in got}
                 cell = (f"{'awaitable of ' if outer_awaitable else ''}{'async' if is_async else 'sync'} iterable of "
                         f"{'awaitable' if item_awaitable else 'plain'} items")
                 table[cell] = sorted(map(str, got))[:1]
